@@ -8,6 +8,10 @@
 //!   After the script the rest of the input (if any) comes as one frame, then the body ends.  Sizes are clipped to what is left.
 //!   Without the third section the frames are the schedule's sizes (at least 1 byte each), as in rounds 1-4.
 //! Async answer (model part):  A=<OK|E<code>:<line>|E8:0 = the error of the body>;acb=<callback bytes>,<calls>;aev=<hash of callback lengths>,<n>;AT=<table>
+//! A segment `tF<k>` (a label for symcase) makes the case also run SymbolFile::parse over a reader whose k-th read() call
+//! (k = 0: the first; calls into an empty slice count) returns Err(io::Error):
+//!   model part  F=<OK|E<code>:<line>|E8:0 = LoadError>;fcb=<callback bytes>,<calls>;fnr=<read() calls that returned>;FT=<table>
+//!   oracle part fcbok=<callback bytes are a prefix of the input>;ffail=<1 if the failing call was issued>;feq=<table == whole-slice table, or both errors>
 //! oracle part: acbok=<callback bytes are a prefix of the input>;aeq=<async table == whole-slice table of the WHOLE input, or both errors>
 //!              ;ad=<bytes the body delivered>;aerr=<1 if the body failed>;aw=<whole-slice parse of the delivered bytes>
 #[path = "../symcase.rs"]
@@ -138,6 +142,82 @@ fn run_stream(c: &Case, script: &[Ev]) -> (String, String) {
     )
 }
 
+/// the reader of symcase::ChunkReader (same schedule semantics) whose `fail_at`-th call fails
+struct FailReader<'a> {
+    data: &'a [u8],
+    pos: usize,
+    sched: &'a [usize],
+    si: usize,
+    calls: u64,
+    fail_at: u64,
+    failed: bool,
+}
+
+impl<'a> std::io::Read for FailReader<'a> {
+    fn read(&mut self, out: &mut [u8]) -> std::io::Result<usize> {
+        if self.calls == self.fail_at {
+            self.failed = true;
+            return Err(std::io::Error::new(std::io::ErrorKind::ConnectionReset, "scripted read error"));
+        }
+        self.calls += 1;
+        let remaining = self.data.len() - self.pos;
+        if out.is_empty() || remaining == 0 {
+            return Ok(0);
+        }
+        let chunk = if self.si < self.sched.len() {
+            let c = self.sched[self.si];
+            self.si += 1;
+            c.max(1)
+        } else {
+            usize::MAX
+        };
+        let n = chunk.min(out.len()).min(remaining);
+        out[..n].copy_from_slice(&self.data[self.pos..self.pos + n]);
+        self.pos += n;
+        Ok(n)
+    }
+}
+
+fn run_rfail(c: &Case, k: u64) -> (String, String) {
+    let mut rd = FailReader { data: &c.data, pos: 0, sched: &c.sched, si: 0, calls: 0, fail_at: k, failed: false };
+    let mut cblen: usize = 0;
+    let mut cbcalls: u64 = 0;
+    let mut cbok = true;
+    let data = &c.data;
+    let res = SymbolFile::parse(&mut rd, |b: &[u8]| {
+        cbcalls += 1;
+        if cblen + b.len() > data.len() || &data[cblen..cblen + b.len()] != b {
+            cbok = false;
+        }
+        cblen += b.len();
+    });
+    let whole = SymbolFile::from_bytes(&c.data);
+    let eq = match (&res, &whole) {
+        (Ok(a), Ok(b)) => a == b,
+        (Err(_), Err(_)) => true,
+        _ => false,
+    };
+    let t = match &res {
+        Ok(s) => render_table(s),
+        Err(_) => "-".to_string(),
+    };
+    (
+        format!(";F={};fcb={},{};fnr={};FT={}", class_async(&res), cblen, cbcalls, rd.calls, t),
+        format!(
+            ";fcbok={};ffail={};feq={}",
+            if cbok { 1 } else { 0 },
+            if rd.failed { 1 } else { 0 },
+            if eq { 1 } else { 0 }
+        ),
+    )
+}
+
+fn fail_tag(section: &str) -> Option<u64> {
+    section
+        .split_ascii_whitespace()
+        .find_map(|t| t.strip_prefix("tF").and_then(|d| d.parse::<u64>().ok()))
+}
+
 fn run(line: &str) -> String {
     // the first two sections are symcase's; the optional third one is the stream script
     let mut parts = line.splitn(3, '|');
@@ -151,7 +231,11 @@ fn run(line: &str) -> String {
         None => symcase::async_chunks(c.data.len(), &c.sched).into_iter().map(Ev::Data).collect(),
     };
     let (am, ao) = run_stream(&c, &evs);
-    format!("{};{};;{};{}", m, am, o, ao)
+    let (fm, fo) = match fail_tag(a) {
+        Some(k) => run_rfail(&c, k),
+        None => (String::new(), String::new()),
+    };
+    format!("{};{}{};;{};{}{}", m, am, fm, o, ao, fo)
 }
 
 fn main() {
